@@ -1764,6 +1764,105 @@ def o_bbox(mir, tier, seed):
     return dict(theory='Real (linear); coordinates arbitrary; Rect::new uninterpreted', functions=['geo_types::private_utils::get_bounding_rect', 'get_min_max', 'BoundingRect for GeometryCollection', 'bounding_rect_merge', 'utils::partial_min / partial_max'], paths=npaths, status=st, info=info, model=None, replay=('bounding_rect', ''))
 
 
+# ---- C11: zero-length operands, over the reals
+
+@obligation('C11', 'line_intersection_zero_length_real', 'line_intersection when one operand is a single point (start = end), for ANY real coordinates, with orient2d = the exact sign and the bounding-box tests exact: None exactly when the point is not on the other segment; otherwise the result consists of that point (an improper SinglePoint at it, or a Collinear payload whose two ends are it) - in both operand orders, the other operand possibly zero-length as well')
+def o_zero_length(mir, tier, seed):
+    T = RealTheory()
+    fn = mir.find('geo', r'algorithm::line_intersection::line_intersection')
+    cross = lambda u, v, w: (v[0] - u[0]) * (w[1] - u[1]) - (v[1] - u[1]) * (w[0] - u[0])
+    between = lambda lo, hi, x: z3.Or(z3.And(lo <= x, x <= hi), z3.And(hi <= x, x <= lo))
+    in_box = lambda u, v, w: z3.And(between(u[0], v[0], w[0]), between(u[1], v[1], w[1]))
+
+    def orient(ip, d):
+        x = cross(deref(d[0]), deref(d[1]), deref(d[2]))
+        return ('fork', [(x > 0, Enum('CounterClockwise')), (x < 0, Enum('Clockwise')), (x == 0, Enum('Collinear'))])
+
+    def boxes_meet(ip, d):
+        (a0, a1), (b0, b1) = d[0][1], d[1][1]
+        mn = lambda x, y: z3.If(x <= y, x, y)
+        mx = lambda x, y: z3.If(x >= y, x, y)
+        c_ = z3.And([z3.And(mn(a0[k], a1[k]) <= mx(b0[k], b1[k]), mn(b0[k], b1[k]) <= mx(a0[k], a1[k])) for k in (0, 1)])
+        return ('fork', [(c_, True), (z3.Not(c_), False)])
+
+    def box_has(ip, d):
+        (a0, a1), c = d[0][1], deref(d[1])
+        c_ = in_box(a0, a1, c)
+        return ('fork', [(c_, True), (z3.Not(c_), False)])
+    extra = dict(EXTRA)
+    extra[r'collinear_intersection::<\w+>'] = ('geo', r'collinear_intersection')
+    uf = {'re:<RobustKernel as (algorithm::)?kernels::Kernel<F>>::orient2d': orient,
+          're:<geo_types::Line<F> as (algorithm::)?bounding_rect::BoundingRect<F>>::bounding_rect': lambda ip, d: ('bbox', [list(deref(d[0])[0]), list(deref(d[0])[1])]),
+          're:<geo_types::Rect<F> as (algorithm::)?intersects::Intersects>::intersects': boxes_meet,
+          're:<geo_types::Rect<F> as (algorithm::)?intersects::Intersects<geo_types::Coord<F>>>::intersects': box_has,
+          're:collinear::<\\w+>': lambda ip, d: Enum('Collinear', [d[0]]), 're:improper::<\\w+>': lambda ip, d: Enum('SinglePoint', [d[0], False]),
+          're:proper_intersection::<\\w+>': lambda ip, d: [T.var('proper_x'), T.var('proper_y')]}
+    bad, npaths = [], 0
+    pt, q0, q1 = coord(T, 'pt_'), coord(T, 's0_'), coord(T, 's1_')
+    on_q = z3.And(cross(q0, q1, pt) == 0, in_box(q0, q1, pt))
+    same = lambda u, v: z3.And(u[0] == v[0], u[1] == v[1])
+    for order in (0, 1):
+        ip = Interp(mir, T, extra, uf)
+        ip.max_steps = 100000
+        point_line, seg = [list(pt), list(pt)], [list(q0), list(q1)]
+        outs = ip.call_fn(fn, [point_line, seg] if order == 0 else [seg, point_line], z3.BoolVal(True))
+        npaths += len(outs)
+        bad.append(z3.Not(z3.Or([pc for pc, _ in outs])))
+        for pc, r in outs:
+            r = deref(r)
+            if variant_is(r, 'None'):
+                bad.append(z3.And(pc, on_q))
+                continue
+            x = deref(r.fields[0])
+            if variant_is(x, 'SinglePoint'):
+                c_, proper = deref(x.fields[0]), x.fields[1]
+                ok = z3.And(on_q, same(c_, pt), z3.BoolVal(proper is False))
+            elif variant_is(x, 'Collinear'):
+                l = deref(x.fields[0])
+                ok = z3.And(on_q, same(deref(l[0]), pt), same(deref(l[1]), pt))
+            else:
+                ok = z3.BoolVal(False)
+            bad.append(z3.And(pc, z3.Not(ok)))
+    st, info, model = check_unsat('line_intersection_zero_length_real', [z3.Or(bad)], timeout_s=60)
+    return dict(theory='Real (nonlinear: cross products); orient2d, bounding boxes interpreted exactly; proper_intersection uninterpreted', functions=['line_intersection::line_intersection', 'collinear_intersection'], paths=npaths, status=st, info=info, model=None, replay=('line_intersection_zero_length', ''))
+
+
+@obligation('C11', 'line_intersects_zero_length_real', 'Line.intersects(Line) when one operand is a single point, for ANY real coordinates (orient2d = the exact sign): true exactly when the point lies on the other segment - in both operand orders (this is the agreement of intersects with line_intersection on degenerate operands; the same clause is C02\'s on a grid)')
+def o_intersects_zero(mir, tier, seed):
+    T = RealTheory()
+    fn = mir.find('geo', r'algorithm::intersects::line::<impl at [^>]*>::intersects', sig=r'_1: &geo_types::Line<T>, _2: &geo_types::Line<T>')
+    fnc = ('geo', r'algorithm::intersects::line::<impl at [^>]*>::intersects', r'_1: &geo_types::Line<T>, _2: &geo_types::Coord<T>')
+    cross = lambda u, v, w: (v[0] - u[0]) * (w[1] - u[1]) - (v[1] - u[1]) * (w[0] - u[0])
+    between = lambda lo, hi, x: z3.Or(z3.And(lo <= x, x <= hi), z3.And(hi <= x, x <= lo))
+
+    def orient(ip, d):
+        x = cross(deref(d[0]), deref(d[1]), deref(d[2]))
+        return ('fork', [(x > 0, Enum('CounterClockwise')), (x < 0, Enum('Clockwise')), (x == 0, Enum('Collinear'))])
+    extra = dict(EXTRA)
+    extra[r'(super::)?point_in_rect::<\w+>'] = ('geo', r'point_in_rect')
+    extra[r'(utils::)?value_in_range::<\w+>'] = ('geo', r'value_in_range')
+    extra[r'(utils::)?value_in_between::<\w+>'] = ('geo', r'value_in_between')
+    extra[r'<geo_types::Line<T> as (algorithm::)?intersects::Intersects<geo_types::Coord<T>>>::intersects'] = fnc
+    bad, npaths = [], 0
+    pt, q0, q1 = coord(T, 'ipt_'), coord(T, 'is0_'), coord(T, 'is1_')
+    on_q = z3.And(cross(q0, q1, pt) == 0, between(q0[0], q1[0], pt[0]), between(q0[1], q1[1], pt[1]))
+    for order in (0, 1):
+        pir = lambda ip, d: z3.And(between(deref(d[1])[0], deref(d[2])[0], deref(d[0])[0]), between(deref(d[1])[1], deref(d[2])[1], deref(d[0])[1]))
+        ip = Interp(mir, T, extra, {'re:<<T as GeoNum>::Ker as (algorithm::)?kernels::Kernel<T>>::orient2d': orient, 're:(super::)?point_in_rect::<\\w+>': pir})
+        ip.max_steps = 400000
+        point_line, seg = [list(pt), list(pt)], [list(q0), list(q1)]
+        args = [Ref(lambda: point_line), Ref(lambda: seg)] if order == 0 else [Ref(lambda: seg), Ref(lambda: point_line)]
+        outs = ip.call_fn(fn, args, z3.BoolVal(True))
+        npaths += len(outs)
+        bad.append(z3.Not(z3.Or([pc for pc, _ in outs])))
+        for pc, r in outs:
+            r = deref(r)
+            rb = z3.BoolVal(r) if isinstance(r, bool) else r
+            bad.append(z3.And(pc, rb != on_q))
+    st, info, model = check_unsat('line_intersects_zero_length_real', [z3.Or(bad)], timeout_s=60)
+    return dict(theory='Real (nonlinear: cross products); orient2d interpreted exactly', functions=['Intersects<Line> for Line', 'Intersects<Coord> for Line (point_in_rect = the exact box test)'], paths=npaths, status=st, info=info, model=None, replay=('line_intersection_zero_length', ''))
+
+
 # ---- C11: the homogeneous-coordinates formula of the proper intersection point
 
 @obligation('C11', 'raw_line_intersection_real', 'raw_line_intersection over the reals, for ANY two segments whose supporting lines are not parallel: the returned point lies on BOTH supporting lines (both cross products vanish), i.e. the conditioned homogeneous-coordinates computation is algebraically the exact intersection point, whatever the conditioning midpoint (floating-point rounding, NaN / infinity handling outside)')
